@@ -33,17 +33,26 @@ def mkx(f, cs, by='raw'):
     return Fxp(cs, f.signed, f.n_word, f.n_frac, raw=True)
 
 
-def do(op, a, b):
+def do(op, a, b, inplace=False):
+    if inplace:                     # x &= y etc. (the result is whatever the name is bound to afterwards)
+        if op == '&':
+            a &= b
+        elif op == '|':
+            a |= b
+        else:
+            a ^= b
+        return a
     return a & b if op == '&' else (a | b if op == '|' else a ^ b)
 
 
-def judge_binary(acc, fxm, xs, ykind, yf, yc, op, part, by='raw'):
+def judge_binary(acc, fxm, xs, ykind, yf, yc, op, part, by='raw', inplace=False, ovf='saturate'):
     """xs: list of x codes (array) or single int (scalar); ykind: 'fxp' | 'mask_r' | 'mask_l'"""
     n = fxm.n_word
     arr = isinstance(xs, list)
     xl = xs if arr else [xs]
-    case = {'part': part, 'fx': list(fxm), 'xs': xs, 'ykind': ykind, 'fy': list(yf) if yf else None, 'yc': yc, 'op': op, 'by': by}
+    case = {'part': part, 'fx': list(fxm), 'xs': xs, 'ykind': ykind, 'fy': list(yf) if yf else None, 'yc': yc, 'op': op, 'by': by, 'inplace': inplace, 'ovf': ovf}
     acc.dim('built_by', by, len(xl))
+    acc.dim('form', ('inplace' if inplace else 'binary') + '/' + ovf, len(xl))
     acc.evaluations += len(xl)
     acc.transitions += 1
     acc.dim('ykind', ykind, len(xl))
@@ -52,13 +61,16 @@ def judge_binary(acc, fxm, xs, ykind, yf, yc, op, part, by='raw'):
     acc.nontrivial += sum(1 for c in xl if c < 0 or neg)
     try:
         x = mkx(fxm, xs, by)
+        x.config.overflow = ovf
+        x0 = x
         if ykind == 'fxp':
             y = mkx(yf, yc, by)
-            z = do(op, x, y)
+            z = do(op, x, y, inplace)
         elif ykind == 'mask_r':
-            z = do(op, x, yc)
+            z = do(op, x, yc, inplace)
         else:
             z = do(op, yc, x)
+        x = x0 if not inplace else mkx(fxm, xs, by)          # (for the operand-unchanged test below)
         got = codes(z)
     except Exception as e:
         acc.violation('exception', case, '%s codes %s %s %s %s raised %r' % (fxm.dtype, str(xl)[:40], op, ykind, yc, e),
@@ -77,17 +89,18 @@ def judge_binary(acc, fxm, xs, ykind, yf, yc, op, part, by='raw'):
     acc.sample(dict(case, xs=xl[:3] if arr else xs), 1)
 
 
-def judge_invert(acc, fxm, xs, part):
+def judge_invert(acc, fxm, xs, part, ovf='saturate'):
     n = fxm.n_word
     arr = isinstance(xs, list)
     xl = xs if arr else [xs]
-    case = {'part': part, 'fx': list(fxm), 'xs': xs, 'op': '~'}
+    case = {'part': part, 'fx': list(fxm), 'xs': xs, 'op': '~', 'ovf': ovf}
     acc.evaluations += 3 * len(xl)
     acc.transitions += 3
     acc.nontrivial += sum(1 for c in xl if c < 0)
     acc.dim('op', '~', len(xl))
     try:
         x = mkx(fxm, xs)
+        x.config.overflow = ovf
         z = ~x
         zz = ~z
         got, got2 = codes(z), codes(zz)
@@ -264,8 +277,10 @@ def run_shard(sh):
             fxm = Fmt(sh['sx'], nw, nf)
             xs = list(range(fxm.lo, fxm.hi + 1))
             judge_invert(acc, fxm, xs, 'S')
+            judge_invert(acc, fxm, xs, 'S', 'wrap')
             for c in xs:
                 judge_invert(acc, fxm, c, 'S')
+                judge_invert(acc, fxm, c, 'S', 'wrap')
             for sy in (True, False):
                 for nfy in sorted({0, nw}):
                     yf = Fmt(sy, nw, nfy)
@@ -274,6 +289,9 @@ def run_shard(sh):
                             judge_binary(acc, fxm, xs, 'fxp', yf, yc, op, 'S')
                             if nf in (0, nw):
                                 judge_binary(acc, fxm, xs, 'fxp', yf, yc, op, 'S', 'value')
+                                judge_binary(acc, fxm, xs, 'fxp', yf, yc, op, 'S', 'raw', True)            # x &= y
+                                judge_binary(acc, fxm, xs, 'fxp', yf, yc, op, 'S', 'raw', False, 'wrap')   # x configured to wrap
+                                judge_binary(acc, fxm, xs[0], 'fxp', yf, yc, op, 'S', 'raw', True, 'wrap')
                             if nw <= sh['ks'] and nf in (0, nw):
                                 for c in xs:
                                     judge_binary(acc, fxm, c, 'fxp', yf, yc, op, 'Ss')
@@ -281,6 +299,8 @@ def run_shard(sh):
                 for op in BIN:
                     judge_binary(acc, fxm, xs, 'mask_r', None, m, op, 'S')
                     judge_binary(acc, fxm, xs, 'mask_l', None, m, op, 'S')
+                    judge_binary(acc, fxm, xs, 'mask_r', None, m, op, 'S', 'raw', True)
+                    judge_binary(acc, fxm, xs, 'mask_r', None, m, op, 'S', 'raw', False, 'wrap')
                     if nw <= sh['ks']:
                         for c in xs:
                             judge_binary(acc, fxm, c, 'mask_r', None, m, op, 'Ss')
@@ -344,9 +364,9 @@ def replay(case):
     elif case.get('demorgan'):
         judge_demorgan(acc, Fmt(*case['fx']), case['a'], case['b'], case['part'])
     elif case['op'] == '~':
-        judge_invert(acc, Fmt(*case['fx']), case['xs'], case['part'])
+        judge_invert(acc, Fmt(*case['fx']), case['xs'], case['part'], case.get('ovf', 'saturate'))
     else:
-        judge_binary(acc, Fmt(*case['fx']), case['xs'], case['ykind'], Fmt(*case['fy']) if case['fy'] else None, case['yc'], case['op'], case['part'], case.get('by', 'raw'))
+        judge_binary(acc, Fmt(*case['fx']), case['xs'], case['ykind'], Fmt(*case['fy']) if case['fy'] else None, case['yc'], case['op'], case['part'], case.get('by', 'raw'), case.get('inplace', False), case.get('ovf', 'saturate'))
     return acc.violations
 
 
